@@ -10,6 +10,13 @@ open Inj Inj.Rt Inj.Tie Inj.Alloc Inj.Machine
 
 namespace Inj.Tie
 
+/-- `read_bytes(ptr, len)` as translated: one read of memory (the oracle supplies the bytes) -/
+theorem T_x86_read_bytes (mode : Mode) (ptr len : Nat) (bs : List Nat) (rest : List Val) (log : List (String × List Val)) :
+    run (GenX86.read_bytes mode ptr len) { answers := Val.bs bs :: rest, log := log } =
+      (Res.ok bs, { answers := rest, log := log ++ [("read_bytes", [Val.n ptr, Val.n len])] }) := by
+  rw [GenX86.read_bytes, run_bind_ok _ _ _ _ _ (run_extB_cons _ _ _ _ _), run_pure]
+  rfl
+
 /-- `patch_and_guard(src, jit, jit_size)` as translated: encode the entry branch func → jit, read the
     bytes it will overwrite, `patch_function`, and build the guard from exactly (func, saved bytes,
     branch length, jit, jit_size) — the steps of `Machine.installX86` after the trampoline is filled. -/
@@ -31,7 +38,7 @@ theorem T_x86_patch_and_guard (mode : Mode) (func jit jsz : Nat) (br saved : Lis
     rw [T_x86_genBranch mode func jit hf hj, hbr]
   rw [GenX86.patch_and_guard]
   rw [run_bind_lift_ok _ _ _ _ hg]
-  rw [run_bind_ok _ _ _ _ _ (run_extB_cons _ _ _ _ _)]
+  rw [run_bind_ok _ _ _ _ _ (T_x86_read_bytes mode func br.length saved _ log)]
   rw [run_bind_ok _ _ _ _ _ (T_x86_patch_function mode func br _ tail (by omega) (by omega))]
   rw [run_bind_ok _ _ _ _ _ (run_extU _ _ _), run_pure]
   simp
@@ -188,3 +195,4 @@ end Inj.Tie
 #print axioms Inj.Tie.T_x86_drop
 #print axioms Inj.Tie.T_x86_drop_refines
 #print axioms Inj.Tie.T_x86_clear_cache
+#print axioms Inj.Tie.T_x86_read_bytes
